@@ -1,0 +1,7 @@
+//go:build !verif
+
+// Package verifhook: observation points for the verification harness; no-ops in normal builds.
+package verifhook
+
+// Point does nothing unless built with the "verif" tag.
+func Point(name string) {}
